@@ -122,6 +122,7 @@ type fgen struct {
 	usedContracts map[string]bool
 	localNames    map[string][]ssa.Value
 	quiet         bool
+	ginvs         []*ginv
 }
 
 func (g *fgen) emit(s string) { g.lines = append(g.lines, s) }
@@ -671,6 +672,7 @@ func (g *fgen) get(v ssa.Value) val {
 			return vv
 		}
 		n := g.fresh("gaddr", "Int")
+		g.fact("true", fmt.Sprintf("(< 0 %s)", n))
 		vv := val{n, v.Type(), "Int"}
 		g.vals[v] = vv
 		return vv
